@@ -50,12 +50,20 @@ _scalars = st.one_of(
     st.just(["n"]),
     st.binary(max_size=5).map(lambda y: ["y", y.hex()]),
 )
+# dictionary keys: mostly text, sometimes another hashable scalar (a plain str key stays a plain str in the case encoding)
+_keys = st.one_of(_text, _text, _text, st.integers(-3, 300).map(lambda i: ["i", str(i)]), st.sampled_from([["b", True], ["b", False], ["n"], ["f", (0.5).hex()], ["f", (2.0).hex()], ["y", "00ff"]]))
+
+
+def _key_of(k):
+    return k if isinstance(k, str) else decode(k)
+
+
 _values = st.recursive(
     _scalars,
     lambda inner: st.one_of(
         st.lists(inner, max_size=3).map(lambda l: ["l", l]),
         st.lists(inner, max_size=3).map(lambda l: ["t", l]),
-        st.lists(st.tuples(_text, inner), max_size=3, unique_by=lambda kv: kv[0]).map(lambda kv: ["d", [list(x) for x in kv]]),
+        st.lists(st.tuples(_keys, inner), max_size=3, unique_by=lambda kv: _key_of(kv[0])).map(lambda kv: ["d", [list(x) for x in kv]]),
     ),
     max_leaves=6,
 )
@@ -80,7 +88,7 @@ def decode(t) -> Any:
     if k == "t":
         return tuple(decode(x) for x in t[1])
     if k == "d":
-        return {kk: decode(v) for kk, v in t[1]}
+        return {_key_of(kk): decode(v) for kk, v in t[1]}
     raise ValueError(k)
 
 
@@ -92,7 +100,7 @@ def same(a, b) -> bool:
     if isinstance(a, (list, tuple)):
         return len(a) == len(b) and all(same(x, y) for x, y in zip(a, b))
     if isinstance(a, dict):
-        return list(a.keys()) == list(b.keys()) and all(same(a[k], b[k]) for k in a)
+        return len(a) == len(b) and all(same(x, y) for x, y in zip(a.keys(), b.keys())) and all(same(a[k], b[k]) for k in a)
     return a == b
 
 
@@ -100,7 +108,7 @@ def same(a, b) -> bool:
 def _case(draw):
     entry = draw(st.sampled_from(ENTRIES))
     if entry == "metadata":
-        kv = draw(st.lists(st.tuples(_text, _values), max_size=3, unique_by=lambda kv: kv[0]))
+        kv = draw(st.lists(st.tuples(_keys, _values), max_size=3, unique_by=lambda kv: _key_of(kv[0])))
         return {"entry": entry, "v": ["d", [list(x) for x in kv]]}
     if entry in ("pandas-columns", "awkward-columns"):
         if draw(st.booleans()):
